@@ -72,9 +72,11 @@ theorem intFits_small (T : Tables) (hT : T.OK) (n : Nat) (h : n < 10 ^ 4) : intF
   simp only [intFits, Int.natAbs_natCast, decide_eq_true_eq]
   omega
 
-theorem setScalar_int_member (E : Env) (w : Nat) (n : Nat) (hfit : intFits E.T (n : Int) = true) :
-    setScalar E (.integer true w) (.int n) = .ok ⟨⟨.int n, .int n, fmtInt w n⟩, true, [true]⟩ := by
-  simp [setScalar, adapt, checkSigned, uOfValue, serialize, pyFmtInt, hfit]
+theorem setScalar_int_member (E : Env) (sg : Bool) (w : Nat) (n : Nat) (hfit : intFits E.T (n : Int) = true) :
+    setScalar E (.integer sg w) (.int n) = .ok ⟨⟨.int n, .int n, fmtInt w n⟩, true, [true]⟩ := by
+  have : ¬ ((n : Int) < 0) := by omega
+  cases sg <;> simp [setScalar, adapt, checkSigned, uOfValue, serialize, pyFmtInt, hfit, this]
+
 
 theorem specCompose_valid (y m d : Nat) (hv : validDate y m d = true) :
     specCompose (.int y) (.int m) (.int d) = (dateText y m d, .date y m d) := by
@@ -83,11 +85,11 @@ theorem specCompose_valid (y m d : Nat) (hv : validDate y m d = true) :
 /-- **date_explode** — setting a DateYYYYMMDD with a value that denotes the date `y-m-d` (a date, a
     datetime, or a text the Date type adapts) returns True, sets year, month and day to exactly
     `y`, `m`, `d`, and the element then composes back to that date. -/
-theorem date_explode (E : Env) (hT : E.T.OK) (s : DateState) (x : Native) (y m d : Nat)
+theorem date_explode (E : Env) (hT : E.T.OK) (c : DateCfg) (hc : c.Integers) (s : DateState) (x : Native) (y m d : Nat)
     (hv : validDate y m d = true)
     (hx : adapt E (.date true) x = .ok (some (.date y m d)) ∨
           ∃ h mi sec us, adapt E (.date true) x = .ok (some (.datetime y m d h mi sec us))) :
-    ∃ s', s.step E (.set x) = .ok (s', some true) ∧
+    ∃ s', s.step E c (.set x) = .ok (s', some true) ∧
       s'.y.value = .int y ∧ s'.m.value = .int m ∧ s'.d.value = .int d ∧
       s'.compose E = .ok (dateText y m d, .date y m d) := by
   obtain ⟨hy, hm, hd⟩ := validDate_bounds y m d hv
@@ -99,10 +101,11 @@ theorem date_explode (E : Env) (hT : E.T.OK) (s : DateState) (x : Native) (y m d
       intro v hv' i hi
       simp only [List.mem_cons, List.mem_nil_iff, or_false] at hv'
       rcases hv' with h | h | h <;> (subst h; cases hi; assumption)), specCompose_valid y m d hv]
-  refine ⟨⟨⟨.int y, .int y, fmtInt 4 y⟩, ⟨.int m, .int m, fmtInt 2 m⟩, ⟨.int d, .int d, fmtInt 2 d⟩⟩, ?_, rfl, rfl, rfl, hcomp⟩
+  obtain ⟨⟨sy, wy, hky⟩, ⟨sm, wm, hkm⟩, ⟨sd, wd, hkd⟩⟩ := hc
+  refine ⟨⟨⟨.int y, .int y, fmtInt wy y⟩, ⟨.int m, .int m, fmtInt wm m⟩, ⟨.int d, .int d, fmtInt wd d⟩⟩, ?_, rfl, rfl, rfl, hcomp⟩
   rcases hx with hx | ⟨h, mi, sec, us, hx⟩ <;>
-    simp [DateState.step, DateState.toElem, Flatland.C04.setElem, hx, setScalar_int_member, fy, fm, fd,
-      DateState.ofElem, yearKind, monthKind]
+    simp [DateState.step, DateState.toElem, DateCfg.schema, Flatland.C04.setElem, hx, hky, hkm, hkd,
+      setScalar_int_member, fy, fm, fd, DateState.ofElem]
 
 theorem findSome_map_ok {α} (f : Except Raise SetResult → Option α) (hf : ∀ r, f (.ok r) = none)
     (rs : List SetResult) : (rs.map Except.ok).findSome? f = none := by
@@ -205,6 +208,58 @@ theorem settled_of_text (E : Env) (hT : E.T.OK) (hE : EnvTotal E) (k : Kind)
   rw [hn] at hi
   obtain ⟨r', hr'⟩ := Flatland.C04.Proofs.set_total_text E hT hE k r.st.u
   exact ⟨r', hr', by simpa [norm, hr'] using hi⟩
+
+/-! ### a concrete sufficient condition for `SplitStable`: single-character static separators -/
+
+theorem splitGo_run (c : Char) (u rest acc : Str) (hu : c ∉ u) :
+    splitGo [c] (u ++ rest) 0 acc = splitGo [c] rest 0 (u.reverse ++ acc) := by
+  induction u generalizing acc with
+  | nil => simp
+  | cons x t ih =>
+    have hx : c ≠ x := fun h => hu (by simp [h])
+    have ht : c ∉ t := fun h => hu (by simp [h])
+    have hb : (c == x) = false := by simpa using hx
+    simp only [List.cons_append, splitGo, List.isPrefixOf, hb, Bool.false_and, Bool.false_eq_true, if_false]
+    rw [ih (x :: acc) ht]
+    simp
+
+theorem splitStr_joinStr_char (c : Char) (us : List Str) (hne : us ≠ []) (h : ∀ u ∈ us, c ∉ u) :
+    splitStr [c] (joinStr [c] us) = us := by
+  unfold splitStr
+  induction us with
+  | nil => exact absurd rfl hne
+  | cons u rest ih =>
+    cases rest with
+    | nil =>
+      have := splitGo_run c u [] [] (h u (by simp))
+      simp only [List.append_nil] at this
+      simp [joinStr, this, splitGo]
+    | cons u' rest' =>
+      simp only [joinStr, List.append_assoc]
+      rw [splitGo_run c u _ [] (h u (by simp))]
+      simp only [List.singleton_append, splitGo, List.isPrefixOf, beq_self_eq_true, Bool.true_and, if_true,
+        List.append_nil, List.reverse_reverse, List.length_singleton, Nat.sub_self]
+      rw [ih (by simp) (fun x hx => h x (List.mem_cons_of_mem _ hx))]
+
+/-- with a one-character static separator, member texts that do not contain it split back exactly -/
+theorem splitStable_single_char (T : Tables) (c : JoinedCfg) (s : JoinedState) (ch : Char)
+    (hsep : c.sep = [ch]) (hsp : c.sp = .static) (hne : s ≠ []) (h : ∀ st ∈ s, ch ∉ st.u) :
+    SplitStable T c s := by
+  unfold SplitStable joinedValue splitWith
+  rw [hsp, hsep]
+  apply splitStr_joinStr_char ch _ (by simpa using hne)
+  intro u hu
+  obtain ⟨st, hst, rfl⟩ := List.mem_map.mp hu
+  exact h st hst
+
+/-- **joined_reset** for the common configuration: one-character static separator, settled
+    non-empty members that do not contain the separator -/
+theorem joined_reset_single_char (E : Env) (c : JoinedCfg) (s : JoinedState) (ch : Char)
+    (hsep : c.sep = [ch]) (hsp : c.sp = .static) (hne : s ≠ []) (h : ∀ st ∈ s, ch ∉ st.u)
+    (hprune : NoEmptyTextUnderPrune c s) (hset : Settled E c.member s) :
+    ∃ s' flag, joinedSet E c s (.leaf (.str (joinedValue c s))) = .ok (s', some flag) ∧
+      joinedValue c s' = joinedValue c s :=
+  joined_reset_partial E c s (splitStable_single_char E.T c s ch hsep hsp hne h) hprune hset
 
 /-! ### JoinedString.value, MultiValue.u/value -/
 
